@@ -78,6 +78,10 @@ func (c *VCtx) call(fr *Frame, st *State, cc *ssa.CallCommon, instr *ssa.Call, m
 		if mode == "go" {
 			return nil
 		}
+		if rt0, ok := recv.(*Term); ok && rt0.Sort == SRef {
+			c.safety(fr, st, "nilderef", Not(Eq(rt0, Null)), cc.Pos())
+			c.bumpCalls(st, rt0)
+		}
 		return c.externalCall(fr, st, cc, invokeKey(cc), append([]Val{recv}, args...), rt)
 	}
 	var fv *FnVal
@@ -190,6 +194,10 @@ func (c *VCtx) callbackCall(fr *Frame, st *State, cc *ssa.CallCommon, f *Term, a
 	c.safety(fr, st, "nilfunc", Not(Eq(f, Null)), cc.Pos())
 	c.eng.assume("user callbacks do not re-enter the object that calls them and do not touch library-internal state")
 	c.noteCallback(fr, st, f, args)
+	c.bumpCalls(st, f)
+	// a cancel function obtained from context.WithCancel cancels its context
+	cx := c.cancelOf(f)
+	c.cancelCtx(st, cx, Not(Eq(cx, Null)))
 	for h := range c.externalMods(cc) {
 		c.havocHeap(st, h)
 	}
@@ -274,8 +282,8 @@ func (c *VCtx) resolveModifies(item string, callee *ssa.Function) (string, Sort)
 	switch {
 	case item == "alloc":
 		return "G:alloc", ArrSort(SRef, SBool)
-	case item == "closed":
-		return "G:closed", ArrSort(SRef, SBool)
+	case item == "time":
+		return "G:now", SInt
 	case strings.HasPrefix(item, "elems(") && strings.HasSuffix(item, ")"):
 		tn := item[6 : len(item)-1]
 		var es Sort
@@ -290,6 +298,17 @@ func (c *VCtx) resolveModifies(item string, callee *ssa.Function) (string, Sort)
 			es = SRef
 		}
 		return elemHeapName(es), ArrSort(SRef, ArrSort(SInt, es))
+	case item == "ghost:calls":
+		return "G:calls", ArrSort(SRef, SInt)
+	case item == "ghost:srccnt":
+		return "G:srccnt", ArrSort(SRef, SInt)
+	case strings.HasPrefix(item, "atomic:"):
+		tn := item[7:]
+		es := SInt
+		if tn == "Pointer" {
+			es = SRef
+		}
+		return "F:sync/atomic." + tn + ".v", ArrSort(SRef, es)
 	case strings.HasPrefix(item, "ghost:"):
 		g := item[6:]
 		return c.ghostHeap(fnPkgPath(callee), g)
@@ -400,10 +419,11 @@ func (c *VCtx) builtin(fr *Frame, st *State, b *ssa.Builtin, cc *ssa.CallCommon,
 		return nil
 	case "close":
 		ch := fr.term(cc.Args[0])
-		cl := c.heap(st, "G:closed", ArrSort(SRef, SBool))
-		c.safety(fr, st, "close", And(Not(Eq(ch, Null)), Not(Select(cl, ch))), cc.Pos())
+		c.safety(fr, st, "close", And(Not(Eq(ch, Null)), Not(c.isClosed(st, ch))), cc.Pos())
 		c.noteClose(fr, st, ch)
-		c.setHeap(st, "G:closed", Store(cl, ch, True))
+		// the close happens now: this resolves the prophecy closedAt(ch)
+		n := c.tick(st)
+		c.fact(Implies(st.pc, Eq(c.closedAt(ch), n)))
 		return nil
 	case "min", "max":
 		a, b2 := fr.term(cc.Args[0]), fr.term(cc.Args[1])
